@@ -243,7 +243,7 @@ func (g *Gen) Root() *Root {
 	r.W = WithUnexported{Pub: g.Tok(), priv: g.Tok(), hidden: hidden{Secret: g.Tok()}}
 	r.M = Meth{g.Tok()}
 	r.PM = &Meth{g.Tok()}
-	r.MapSS = map[string]string{"k1": g.Tok(), "k2": g.Tok(), "empty": ""}
+	r.MapSS = map[string]string{"k1": g.Tok(), "k2": g.Tok(), "empty": "", "": g.Tok()} // (the empty string is a key like any other)
 	r.MapSI = map[string]int{"a": 1 + g.R.Intn(50), "zero": 0}
 	r.MapIS = map[int]string{1: g.Tok(), 2: g.Tok(), 0: g.Tok()}
 	r.MapNamed = map[Key]string{"nk": g.Tok()}
@@ -409,7 +409,7 @@ func deref(v reflect.Value) (reflect.Value, bool) {
 }
 
 // Vars gives the values of the VarRefs.
-var Vars = map[VarRef]interface{}{"ix0": 0, "ix1": 1, "ix2": 2, "ix3": 3, "ixm1": -1, "ix9": 9, "kk1": "k1", "kabsent": "absent", "knamed": Key("nk"), "i64one": int64(1), "u8one": uint8(1), "izero": 0, "kslice": []int{1}, "kstruct": struct{ S []string }{[]string{"x"}},
+var Vars = map[VarRef]interface{}{"ix0": 0, "ix1": 1, "ix2": 2, "ix3": 3, "ixm1": -1, "ix9": 9, "kk1": "k1", "kempty": "", "kabsent": "absent", "knamed": Key("nk"), "i64one": int64(1), "u8one": uint8(1), "izero": 0, "kslice": []int{1}, "kstruct": struct{ S []string }{[]string{"x"}},
 	// comparable by static type, unhashable by dynamic value
 	"kdyn":  struct{ ID interface{} }{[]int{7}},
 	"kpair": [2]interface{}{"a", map[string]int{"z": 1}}}
